@@ -262,6 +262,10 @@ class ChainNode(Entity):
         if seq >= self._applied_seq_by_key.get(key, 0):
             self._applied_seq_by_key[key] = seq
             yield from self._store.put(key, value)
+        else:
+            # The newer write may still be in flight to the store: take as long
+            # as applying would, so this acknowledgement cannot precede it.
+            yield self._store.write_latency
 
         if self._craq_enabled:
             self._dirty_keys.add(key)
